@@ -71,6 +71,7 @@ class SortedOpaque:
 
 
 def eigh(x, **kw):
+  T._no_kw("eigh", kw, ("symmetrize_input",) if kw.get("UPLO") is None else ())
   x = T.asarray(x)
   T.shape_compat(x.shape[-1], x.shape[-2], "eigh-square")
   w = SortedOpaque("eigh_w", x.shape[:-1], descending=False, nonneg=False, dtype=x.dtype).t
@@ -88,6 +89,7 @@ def eigh(x, **kw):
 
 
 def svd(x, full_matrices=True, compute_uv=True, **kw):
+  T._no_kw("svd", kw, ("hermitian",) if not kw.get("hermitian") else ())
   x = T.asarray(x)
   m, n = x.shape[-2], x.shape[-1]
   if full_matrices:
@@ -122,7 +124,11 @@ def qr(x, mode="reduced"):
 
 # ------------------------------------------------------------------ elementwise helpers
 def _u(f):
-  return lambda x, *a, **k: T.ew(f, x)
+  def g(x, *a, **k):
+    if a or any(v is not None for v in k.values()):
+      raise Unsupported(f"elementwise library function called with extra arguments {a} {k}")
+    return T.ew(f, x)
+  return g
 
 
 def _sqrt(x):
@@ -178,6 +184,7 @@ def _ones_like(x, dtype=None):
 
 
 def _array(x, dtype=None, **kw):
+  T._no_kw("array", kw, ("copy", "order", "ndmin") if kw.get("ndmin", 0) in (0, None) else ())
   return T.asarray(x, dtype)
 
 
@@ -281,6 +288,34 @@ def make_jnp():
   j.repeat = T.repeat
   j.trace = T.trace
   j.cov = _unsupported("jnp.cov")
+  j.full_like = lambda x, v, dtype=None: T.full(T.asarray(x).shape, v, dtype or T.asarray(x).dtype)
+  j.clip = lambda x, lo=None, hi=None: T.ew(
+      lambda v: (v if lo is None else OPS.maximum(v, lo)) if hi is None else OPS.minimum(v if lo is None else OPS.maximum(v, lo), hi), x)
+  j.negative = lambda x: T.ew(lambda v: -v, x)
+  j.add = lambda a, b: T.ew(lambda x, y: x + y, a, b)
+  j.subtract = lambda a, b: T.ew(lambda x, y: x - y, a, b)
+  j.multiply = lambda a, b: T.ew(T._mul, a, b)
+  j.divide = lambda a, b: T.ew(T._div, a, b)
+  j.true_divide = j.divide
+  j.equal = lambda a, b: T.ew(lambda x, y: x == y, a, b, cmp=True)
+  j.not_equal = lambda a, b: T.ew(lambda x, y: x != y, a, b, cmp=True)
+  j.less = lambda a, b: T.ew(lambda x, y: x < y, a, b, cmp=True)
+  j.less_equal = lambda a, b: T.ew(lambda x, y: x <= y, a, b, cmp=True)
+  j.greater_equal = lambda a, b: T.ew(lambda x, y: x >= y, a, b, cmp=True)
+  j.floor = lambda x: T.ew(lambda v: v // 1 if not isinstance(v, (int, float)) else float(__import__("math").floor(v)), x)
+  j.swapaxes = lambda x, a, b: T.transpose(x, [b if i == a else a if i == b else i for i in range(T.asarray(x).ndim)])
+  j.ravel = lambda x: T.reshape(x, (-1,))
+  j.shape = lambda x: T.asarray(x).shape
+  j.ndim = lambda x: T.asarray(x).ndim
+  j.size = lambda x: T.asarray(x).size
+  j.outer = lambda a, b: T.ew(T._mul, T.expand_dims(T.asarray(a), 1), T.expand_dims(T.asarray(b), 0))
+  j.identity = lambda n, dtype=None: T.eye(n, dtype=dtype)
+  j.tile = _unsupported("jnp.tile")
+  j.take = _unsupported("jnp.take")
+  j.argmax = _unsupported("jnp.argmax")
+  j.argsort = _unsupported("jnp.argsort")
+  j.sort = _unsupported("jnp.sort")
+  j.cumsum = _unsupported("jnp.cumsum")
   j.linalg = NS(norm=T.norm, eigh=eigh, svd=svd, qr=qr, eigvalsh=lambda x: eigh(x)[0])
   return j
 
@@ -574,7 +609,25 @@ def make_jax(jnp):
     c.axioms_used.add("under pmap: lax.all_gather(v, axis)[r] = value of v on replica r")
     return g(x)
 
-  lax = NS(cond=lax_cond, while_loop=lax_while_loop, Precision=_Precision,
+  def dynamic_slice_in_dim(x, start, size, axis=0):
+    x = T.asarray(x)
+    st = start.item() if isinstance(start, Tensor) else start
+    # lax clamps the start index so that the slice stays in bounds
+    d = x.shape[axis]
+    st = sym.smax(0, sym.smin(st, d - size)) if isinstance(st, sym.Sym) or isinstance(d, sym.Sym) else max(0, min(st, d - size))
+    sl = [slice(None)] * x.ndim
+    sl[axis] = slice(st, st + size)
+    return T.getitem(x, tuple(sl))
+
+  def dynamic_index_in_dim(x, index, axis=0, keepdims=True):
+    r = dynamic_slice_in_dim(x, index, 1, axis)
+    return r if keepdims else T.squeeze(r, axis)
+
+  def select(pred, a, b):
+    return T.where(pred, a, b)
+
+  lax = NS(dynamic_slice_in_dim=dynamic_slice_in_dim, dynamic_index_in_dim=dynamic_index_in_dim, select=select,
+           stop_gradient=lambda x: x, cond=lax_cond, while_loop=lax_while_loop, Precision=_Precision,
            rsqrt=_rsqrt, with_sharding_constraint=with_sharding_constraint,
            psum=psum, axis_index=axis_index, all_gather=all_gather)
   j = NS(numpy=jnp, lax=lax, tree=tree, tree_util=tree_util, vmap=vmap,
